@@ -270,21 +270,24 @@ def fixed_count(defs, count):
 
 
 def read_struct(eng, st, fref, defs, inst, module, name, node, as_record=False):
-    """-> VRef to a heap object holding the parsed fields (cstruct instances are mutable)."""
-    from .calls import file_method
+    """-> VRef to a heap object holding the parsed fields (cstruct instances are mutable).
+    The fixed-size prefix of the layout is read with a single end-of-file test: either all of it is
+    available (fields are slices of the content at static offsets) or EOFError is raised with the
+    position at end of content."""
     fields = {}
     layout = defs.structs[name]
-    # fixed-size prefix: a single end-of-file test instead of one per field
     cell = st.heap[fref.ident]
     pos, L = cell["pos"].t, IS.len(cell["content"].t)
-    prefix = 0
+    content = cell["content"].t
+    prefix, nfixed = 0, 0
     for (_f, fty, fc) in layout:
-        s = fixed_size(defs, fty, fc)
-        if s is None:
+        sz = fixed_size(defs, fty, fc)
+        if sz is None:
             break
-        prefix += s
+        prefix += sz
+        nfixed += 1
     if prefix:
-        ok = pos + prefix <= L
+        ok = z3.And(pos >= 0, pos + prefix <= L)
         if eng.exc_observable("EOFError"):
             bad = st.fork()
             bad.assume(z3.Not(ok))
@@ -295,12 +298,54 @@ def read_struct(eng, st, fref, defs, inst, module, name, node, as_record=False):
             st.assume(ok)
         else:
             eng.implicit_error(st, ok, "EOFError", node, "cstruct-short-read")
-    for (f, fty, fc) in layout:
+        off = 0
+        for (f, fty, fc) in layout[:nfixed]:
+            fields[f], off = fixed_field(eng, st, defs, inst, module, content, pos, off, fty, fc)
+        nc = dict(st.heap[fref.ident])
+        nc["pos"] = VInt(pos + prefix)
+        st.heap[fref.ident] = nc
+    for (f, fty, fc) in layout[nfixed:]:
         fields[f] = read_value(eng, st, fref, defs, inst, module, fty, fc, fields, node)
     ident = f"cstruct!{name}!{next(_ids)}"
     st.heap[ident] = dict({"__kind__": "obj", "__class__": f"cstruct:{name}", "__module__": module.modname,
                            "__cdefs__": (module.modname, inst)}, **fields)
     return VRef(ident, f"cstruct:{name}")
+
+
+def fixed_field(eng, st, defs, inst, module, content, pos, off, ty, count):
+    """value of a fixed-size field located at content[pos+off ...] (availability already established)"""
+    if count is not None and ty != "char":
+        n = fixed_count(defs, count)
+        items = []
+        for _ in range(n):
+            v, off = fixed_field(eng, st, defs, inst, module, content, pos, off, ty, None)
+            items.append(v)
+        return VTuple(items), off
+    if ty in defs.structs:
+        sub = {}
+        for (f, fty, fc) in defs.structs[ty]:
+            sub[f], off = fixed_field(eng, st, defs, inst, module, content, pos, off, fty, fc)
+        return VRecord(f"cstruct:{ty}", sub), off
+    if ty == "char" and count is not None:
+        n = fixed_count(defs, count)
+        return VSeq(IS.sl(content, pos + off, pos + off + n), "bytes"), off + n
+    base = defs.enums[ty][0] if ty in defs.enums else ty
+    size, signed = PRIMS[base]
+    if base == "char":
+        return VSeq(IS.sl(content, pos + off, pos + off + 1), "bytes"), off + 1
+    at = lambda k: IS.at(content, pos + off + k)
+    if defs.endian == "<":
+        val = sum((at(k) * (256 ** k) for k in range(size)), z3.IntVal(0))
+    else:
+        val = sum((at(k) * (256 ** (size - 1 - k)) for k in range(size)), z3.IntVal(0))
+    if signed:
+        half = 256 ** size // 2
+        val = z3.If(val >= half, val - 256 ** size, val)
+    v = fresh(f"fld", I)
+    st.assume(v == val)
+    if ty in defs.enums:
+        return enum_value(ty, inst, module, v), off + size
+    return VInt(v), off + size
 
 
 def struct_size(eng, st, defs, name, cell):
